@@ -12,8 +12,11 @@ def run(tier, seed):
         bins = vlib.build_all(cfgs)
         byname = {c.name(): c for c in cfgs}
         q = n // 5
+        mc = 6000 if tier == "thorough" else 480
         plan = [(cfgs[0].name(), 0, q, []), (cfgs[1].name(), q, 2 * q, []), (cfgs[3].name(), 2 * q, 3 * q, []),
-                (cfgs[2].name(), 3 * q, n, [])]
+                (cfgs[2].name(), 3 * q, n, []),
+                # uninitialised reads are invisible to ASan: a sample of histories runs under valgrind memcheck
+                (cfgs[2].name(), n, n + mc, [], vlib.MEMCHECK)]
         res = vlib.run_cases(bins, plan, seed, wd)
         v.absorb(res, byname, seed, floor_cases=n)
         c = res.counters
@@ -37,6 +40,7 @@ def run(tier, seed):
             "max_tree_nodes": c.get("max_nodes", 0), "max_depth": c.get("max_depth", 0),
             "ledger_events": c.get("ledger_allocs", 0) + c.get("ledger_frees", 0),
             "per_build_cases": res.per_cfg_cases, "builds": [x.describe() for x in cfgs],
+            "histories_under_memcheck": mc,
             "cases_not_explored": res.unexplored,
         }
         return v.finish(cov, [
